@@ -54,7 +54,7 @@ Theorem C06_code_schemas_prefix_flat : forall sid vs p q, flat_b (fields_of env0
     decode env0 sid p = DOk (VStruct (firstn i (norm_fields env0 vs (fields_of env0 sid)) ++ skipn i ps)) [].
 Proof. exact RoundTripExamples.env0_prefix_flat. Qed.
 Theorem C06_code_schemas_flat_types :
-  filter (fun sid => flat_b (fields_of env0 sid)) (seq 0 (length env0)) = [3; 4; 6; 9; 10; 11; 12; 13; 14; 15; 17; 20; 22; 23; 27]%nat.
+  filter (fun sid => flat_b (fields_of env0 sid)) (seq 0 (length env0)) = [3; 4; 6; 9; 10; 11; 12; 13; 14; 15; 17; 20; 22; 23; 29]%nat.
 Proof. exact RoundTripExamples.env0_flat_types. Qed.
 
 (* a present field whose wire type is not admissible for the IDL type of its tag is rejected: member level, every
